@@ -2,13 +2,11 @@
    evaluation step ever hits a defensive check ([Err Internal]).  Proved by induction on the fuel,
    with a typing invariant on the variable environment that is preserved by every evaluation
    step (type preservation) and that makes every defensive check pass (progress up to user errors). *)
-From CV Require Export C01.EnvLemmas.
+From CV Require Export C01.PathLemmas.
 
 Arguments box : simpl never.
 Arguments member_check : simpl never.
 Arguments indexed_check : simpl never.
-Arguments get_index : simpl never.
-Arguments get_field : simpl never.
 Arguments binop_apply : simpl never.
 Arguments val_equal : simpl never.
 Arguments cast_prep : simpl never.
@@ -19,8 +17,6 @@ Arguments scope : simpl never.
 Arguments mem : simpl never.
 Arguments subset : simpl never.
 Arguments firstn : simpl never.
-
-Definition err_ok (e : err) : Prop := match e with Internal => False | _ => True end.
 
 (* inversion of a successful checker equation: case-split every scrutinee *)
 Ltac inv1 H :=
@@ -123,6 +119,86 @@ Lemma check_list_eq C G inv es tgt i :
   end.
 Proof. destruct es; reflexivity. Qed.
 
+Lemma check_stmt_SIf C G inv il c b1 b2 :
+  check_stmt C G inv il (SIf c b1 b2) =
+  match check_expr C G inv c with
+  | Some (c', TBool, i0) =>
+    match check_block C G i0 il b1 with
+    | Some (b1', i1, r1) =>
+      match check_block C G i0 il b2 with
+      | Some (b2', i2, r2) =>
+        Some (SIf c' b1' b2', G, scope (length G) i1 ++ scope (length G) i2, r1 && r2)
+      | None => None
+      end
+    | None => None
+    end
+  | _ => None
+  end.
+Proof. reflexivity. Qed.
+
+Lemma check_stmt_SIfLet C G inv il e tv b1 b2 :
+  check_stmt C G inv il (SIfLet e tv b1 b2) =
+  match check_expr C G inv e with
+  | Some (e', TOpt t, i0) =>
+    match check_block C (G ++ [t]) i0 il b1 with
+    | Some (b1', i1, r1) =>
+      match check_block C G i0 il b2 with
+      | Some (b2', i2, r2) =>
+        Some (SIfLet e' (TOpt t) b1' b2', G, scope (length G) i1 ++ scope (length G) i2, r1 && r2)
+      | None => None
+      end
+    | None => None
+    end
+  | _ => None
+  end.
+Proof. reflexivity. Qed.
+
+Lemma check_stmt_SWhile C G inv il c b :
+  check_stmt C G inv il (SWhile c b) =
+  match check_expr C G inv c with
+  | Some (c', TBool, i0) =>
+    match check_block C G i0 true b with
+    | Some (b', i1, _) =>
+      if subset (scope (length G) i1) inv
+      then Some (SWhile c' b', G, inv ++ i0, false) else None
+    | None => None
+    end
+  | _ => None
+  end.
+Proof. reflexivity. Qed.
+
+Lemma check_stmt_SFor C G inv il e te b :
+  check_stmt C G inv il (SFor e te b) =
+  match check_expr C G inv e with
+  | Some (e', TArr t, i0) =>
+    if kle (kind_of t) KS then
+      match check_block C (G ++ [t]) i0 true b with
+      | Some (b', i1, _) =>
+        if subset (scope (length G) i1) i0
+        then Some (SFor e' t b', G, i0, false) else None
+      | None => None
+      end
+    else None
+  | _ => None
+  end.
+Proof. reflexivity. Qed.
+
+Lemma check_block_eq C G inv il b :
+  check_block C G inv il b =
+  match b with
+  | BNil => Some (BNil, inv, false)
+  | BCons s r =>
+    match check_stmt C G inv il s with
+    | Some (s', G1, i1, r1) =>
+      match check_block C G1 i1 il r with
+      | Some (r', i2, r2) => Some (BCons s' r', i1 ++ i2, r1 || r2)
+      | None => None
+      end
+    | None => None
+    end
+  end.
+Proof. destruct b; reflexivity. Qed.
+
 Section sound.
   Variable D : decls.
   Variable sigs : list fsig.
@@ -197,7 +273,7 @@ Section sound.
     destruct (transfer_ok D _ _ _ Hw Hs1 Hs2) as (w & H & Hw'); rewrite H; clear H.
 
   Lemma wt_i8 z : in_i8 z = true -> wt D (VI8 z) TInt8 = true.
-  Proof. intro H. unfold wt. simpl. rewrite H. reflexivity. Qed.
+  Proof. intro H. unfold wt. change (wfv D (VI8 z)) with (in_i8 z). rewrite H. reflexivity. Qed.
 
   Lemma wt_list_nth : forall vs ts, wt_list D vs ts = true -> length vs = length ts.
   Proof.
@@ -355,24 +431,23 @@ Section sound.
     apply In_nth_error in Hx as (k & Hk). exact (H _ _ Hk).
   Qed.
 
-  Lemma wt_list_pointwise : forall ps vs j,
+  Lemma wt_list_pointwise : forall ps vs (f : nat -> ty),
     length vs = length ps ->
-    (forall k v, nth_error vs k = Some v -> wt D v (nth (j + k) (firstn j (repeat TVoid j) ++ ps) TVoid) = true) ->
+    (forall k, f k = nth k ps TVoid) ->
+    (forall k v, nth_error vs k = Some v -> wt D v (f k) = true) ->
     wt_list D vs ps = true.
   Proof.
-    induction ps; destruct vs; simpl; intros j Hl H; try discriminate; try reflexivity.
-    assert (Hn : forall k, nth (j + k) (firstn j (repeat TVoid j) ++ a :: ps) TVoid = nth k (a :: ps) TVoid).
-    { intro k. rewrite app_nth2; rewrite firstn_length, repeat_length, Nat.min_id; [|lia].
-      f_equal. lia. }
-    rewrite <- (Hn O). rewrite (H O v eq_refl). simpl.
-    apply (IHps vs O); [lia|]. intros k x Hk. simpl.
-    specialize (H (S k) x Hk). rewrite Hn in H. exact H.
+    induction ps; destruct vs; simpl; intros f Hl Hf H; try discriminate; try reflexivity.
+    pose proof (H O v eq_refl) as H0. rewrite Hf in H0. simpl in H0. rewrite H0. simpl.
+    apply (IHps vs (fun k => f (S k))); [lia | intro k; rewrite Hf; reflexivity |].
+    intros k x Hk. exact (H (S k) x Hk).
   Qed.
 
   Lemma list_post_args es ps vs :
     exprs_len es = length ps -> list_post es (fun i => nth i ps TVoid) O vs -> wt_list D vs ps = true.
   Proof.
-    intros Hl [Hlen H]. apply (wt_list_pointwise ps vs O); [lia|]. intros k v Hk. simpl. exact (H _ _ Hk).
+    intros Hl [Hlen H]. apply (wt_list_pointwise ps vs (fun i => nth i ps TVoid)); [lia | reflexivity |].
+    intros k v Hk. exact (H _ _ Hk).
   Qed.
 
   Lemma pairs_of_pointwise tk tv : forall vs j,
@@ -589,6 +664,64 @@ Section sound.
       + intros k x Hk. destruct k; simpl in Hk.
         * inversion Hk; subst. rewrite Nat.add_0_r. exact Hw.
         * replace (i + S k)%nat with (S i + k)%nat by lia. apply Hvs. exact Hk.
+  Qed.
+
+  (* ---------------------------------------------------------------- assignment targets *)
+
+  Definition post_t (G : list ty) (inv : list nat) (g : target) (tg : ty)
+             (r : res (nat * list step * option step * env)) : Prop :=
+    match r with
+    | Ok (x, q, l, r') =>
+      env_ok D G inv r' /\ x = root_of g /\
+      exists troot, nth_error G x = Some troot /\ tpath D troot q l tg
+    | Err e => err_ok e
+    end.
+
+  Definition IHT (n : nat) : Prop :=
+    forall rt G inv g g' tg inv' r,
+      check_target (C rt) G inv g = Some (g', tg, inv') -> env_ok D G inv r ->
+      post_t G inv' g tg (eval_target P true n g' r).
+
+  Lemma intval_index vi ti : is_intty ti = true -> wt D vi ti = true -> exists z, index_of vi = Some z.
+  Proof.
+    intros Hti Hi. destruct ti; try discriminate.
+    - apply wt_i8_inv in Hi as (z & -> & _). exists z; reflexivity.
+    - apply wt_int_inv in Hi as (z & ->). exists z; reflexivity.
+  Qed.
+
+  Ltac ih_t IHt Hc He x q l r He' Hx troot Hroot Htp :=
+    let H := fresh "Hih" in
+    pose proof (IHt _ _ _ _ _ _ _ _ Hc He) as H;
+    match type of H with
+    | post_t _ _ _ _ ?ev =>
+      destruct ev as [[[[x q] l] r]|] eqn:?;
+      [destruct H as (He' & Hx & troot & Hroot & Htp) | simpl; exact H]
+    end.
+
+  Lemma target_step n : IHE n -> IHT n -> IHT (S n).
+  Proof.
+    intros IH IHt rt G inv g g' tg inv' r Hc He.
+    destruct g; cbn in Hc.
+    - (* TgVar *) inv_check Hc. simpl. split; [assumption|]. split; [reflexivity|].
+      exists tg. split; [assumption|]. split; reflexivity.
+    - (* TgIndex *) inv_check Hc; simpl.
+      + (* array *)
+        ih_t IHt E He x q lst r1 He1 Hx troot Hroot Htp. simpl.
+        ih_e IH E0 He1 vi r2 Hvi He2. simpl.
+        split; [assumption|]. split; [assumption|]. exists troot. split; [assumption|].
+        exists (TArr tg). split; [apply tpath_full; assumption|].
+        left. split; [reflexivity|]. eapply intval_index; eauto.
+      + (* dictionary *)
+        ih_t IHt E He x q lst r1 He1 Hx troot Hroot Htp. simpl.
+        ih_e IH E0 He1 vi r2 Hvi He2. simpl.
+        split; [assumption|]. split; [assumption|]. exists troot. split; [assumption|].
+        eexists. split; [apply tpath_full; eassumption|].
+        right. eexists _, _. split; [reflexivity|]. split; [reflexivity|]. exact (wt_wfv D _ _ Hvi).
+    - (* TgMember *) inv_check Hc. simpl.
+      ih_t IHt E He x q lst r1 He1 Hx troot Hroot Htp. simpl.
+      split; [assumption|]. split; [assumption|]. exists troot. split; [assumption|].
+      eexists. split; [apply tpath_full; eassumption|].
+      eexists. split; eassumption.
   Qed.
 
 End sound.
